@@ -131,6 +131,13 @@ CHECKS.update(
         note="Structures are enumerated (1-2 parameters exhaustively, 3 sampled in quick); magnitudes symbolic. Specs referring to undefined names are outside the property and skipped.",
         design="4/C17",
     ),
+    C18=dict(
+        text="copy / deepcopy / pickle protocols 0-5 / to_tuple-from_tuple of Quantity, Unit, UnitsContainer and ParserHelper with a symbolic magnitude (pickled by placeholder id) and solver-chosen exponents: equal for all magnitudes, attached to a fresh "
+        "application registry and usable there (prefixed units not yet registered), not mixing with the source registry; every operator and ordering between objects of two registries must raise ValueError; a deep-copied registry "
+        "and its source are evolved with symbolic definitions and proved independent; the lazy application registry converts like an explicit one; exception classes round-trip (concrete).",
+        note="Measurement pickling and ndarray magnitudes outside; exponents in [-2,2] realised.",
+        design="4/C18",
+    ),
     C20=dict(
         text="Every entry of an independently written table of standard values (about 230 units/constants, 32 prefixes, 5 temperature scales) is compared with the real registry "
         "for all magnitudes x (linear/affine map proved by z3), plus symbol and dimensionality. The solver's role is small; the strength is the independent table.",
